@@ -12,7 +12,7 @@ variable {κ γ : Type}
 
 /-- the congruence "equal up to the guard state and the strict flag" -/
 def strictCong (cfg : TagCfg) : Cong κ κ :=
-  { Rx := fun x₁ x₂ => x₂ = eraseX x₁, Stop := StopS cfg, Good := fun _ => True }
+  { Rx := fun x₁ x₂ => x₂ = eraseX x₁, Jr := fun _ => True, Stop := StopS cfg, Good := fun _ => True }
 
 /-- actions that do not call the sink never signal an ambiguity error -/
 theorem act_silent (env : Env κ) (a : ActName) (ha : a.callsSink = false) (inp : Bytes) (m : M κ) (h : Nat) :
@@ -38,7 +38,7 @@ theorem strictCong_ok (env : Env κ) (inp : Bytes) : (strictCong (κ := κ) env.
   good_eoi := fun _ => trivial
   act := by
     intro a m₁ m₂ hm
-    obtain ⟨c, r, x₁, x₂, rfl, rfl, hx⟩ := Cong.MR.cases hm
+    obtain ⟨c, r, x₁, x₂, rfl, rfl, -, hx⟩ := Cong.MR.cases hm
     simp only [strictCong] at hx
     subst hx
     rcases act_erase env a inp ⟨c, r, x₁⟩ with hs | he
@@ -46,7 +46,7 @@ theorem strictCong_ok (env : Env κ) (inp : Bytes) : (strictCong (κ := κ) env.
     · right
       have : (⟨c, r, eraseX x₁⟩ : M κ) = eraseM ⟨c, r, x₁⟩ := rfl
       rw [this, he]
-      exact ⟨⟨rfl, rfl, rfl⟩, rfl, trivial⟩
+      exact ⟨⟨rfl, rfl, trivial, rfl⟩, rfl, trivial⟩
   silent := by
     rintro a m₁ ha ⟨h, hr, -⟩
     exact act_silent env a ha inp m₁ h hr
@@ -55,6 +55,10 @@ theorem strictCong_ok (env : Env κ) (inp : Bytes) : (strictCong (κ := κ) env.
     simp only [strictCong] at hx ⊢
     subst hx
     rfl
+  jr_enter := fun _ _ _ => trivial
+  jr_leave := fun _ _ => trivial
+  jr_adjust := fun _ _ => trivial
+  jr_load := fun _ _ _ _ => trivial
 
 def eraseP (p : Parser κ) : Parser κ := { p with x := eraseX p.x }
 
@@ -63,8 +67,8 @@ theorem PR_iff (cfg : TagCfg) (p₁ p₂ : Parser κ) : (strictCong cfg).PR p₁
   obtain ⟨a2, b2, c2, d2, e2, x2⟩ := p₂
   simp only [Cong.PR, strictCong, eraseP, Parser.mk.injEq]
   constructor
-  · rintro ⟨rfl, rfl, rfl, rfl, rfl, rfl⟩; exact ⟨rfl, rfl, rfl, rfl, rfl, rfl⟩
-  · rintro ⟨rfl, rfl, rfl, rfl, rfl, rfl⟩; exact ⟨rfl, rfl, rfl, rfl, rfl, rfl⟩
+  · rintro ⟨rfl, rfl, rfl, rfl, rfl, rfl, -, -⟩; exact ⟨rfl, rfl, rfl, rfl, rfl, rfl⟩
+  · rintro ⟨rfl, rfl, rfl, rfl, rfl, rfl⟩; exact ⟨rfl, rfl, rfl, rfl, rfl, rfl, trivial, trivial⟩
 
 /-- **`Parser.parse`: strict vs non-strict.** Either the strict parse fails with the ambiguity error
 of a guard refusal (and the guard of the simulator it leaves behind refuses that very tag), or the
